@@ -225,7 +225,7 @@ def msg_payload(st, ref):
     return None
 
 
-@contract('lomond.message.Message.build', serves=['C01', 'C04', 'C05', 'C06'])
+@contract('lomond.message.Message.build', serves=['C01', 'C04', 'C05', 'C06', 'C08', 'C14'])
 class MessageBuild(Contract):
     """one message per frame list: the class is chosen by the FIRST frame's opcode; unless that
     frame has RSV1 and a decompressor is installed, the payload is the in-order concatenation of
@@ -313,9 +313,9 @@ class MessageBuild(Contract):
         cls = st.obj(res).cls
         want = {M.Binary: 2, M.Text: 1, M.Close: 8, M.Ping: 9, M.Pong: 10}
         if cls in want:
-            out.append(('class-by-first-frame-opcode', f0.opcode == want[cls], ('C01',)))
+            out.append(('class-by-first-frame-opcode', f0.opcode == want[cls], ('C01', 'C08', 'C14')))
         else:
-            out.append(('class-by-first-frame-opcode', And(*[f0.opcode != k for k in want.values()]), ('C01',)))
+            out.append(('class-by-first-frame-opcode', And(*[f0.opcode != k for k in want.values()]), ('C01', 'C08', 'C14')))
         out.append(('message-opcode', iv(st.get(res, 'opcode')) == f0.opcode))
         # which payload went into the typed constructor?
         src = st.ghost.get('typed_payload_src')
@@ -323,12 +323,12 @@ class MessageBuild(Contract):
         use_inflate = And(f0.rsv1 != 0, BoolVal(a.decompress is not None))
         if cls in (M.Binary, M.Ping, M.Pong):
             p = st.get(res, 'data')
-            out.append(('payload-is-immutable-bytes', BoolVal(isinstance(p, SBytes) and p.kind == BYTES), ('C01',)))
+            out.append(('payload-is-immutable-bytes', BoolVal(isinstance(p, SBytes) and p.kind == BYTES), ('C01', 'C08', 'C14')))
             if isinstance(p, SBytes):
                 if (p.meta or {}).get('inflate_of') is not None:
                     out.append(('inflated-only-when-first-frame-has-RSV1-and-decompressor', use_inflate, ('C06',)))
                     out.append(('inflater-was-given-exactly-these-frames', BoolVal(same_list(p.meta['inflate_of'], frames)), ('C06',)))
                 else:
                     out.append(('not-inflated-only-without-RSV1-or-decompressor', Not(use_inflate), ('C06',)))
-                    out += [(n, f, ('C01',)) for n, f in is_concat_of(ip, p, frames)]
+                    out += [(n, f, ('C01', 'C08', 'C14')) for n, f in is_concat_of(ip, p, frames)]
         return out
